@@ -92,7 +92,8 @@ def optimize_prec_assignment(model: MPS,
                         continue
                     for j in range(i + 1, len(sorted_precisions)):
                         w_theta_alpha_array_tmp = [copy.deepcopy(w_theta_alpha_array)[i] for i in sorted_indexes]
-                        while w_theta_alpha_array_tmp[i] > 0:
+                        # fractions are multiples of 1/n_channels accumulated in float: stop at less than half a channel
+                        while w_theta_alpha_array_tmp[i] > 0.5 / layer.w_mps_quantizer.theta_alpha.shape[1]:
                             w_theta_alpha_array_tmp[i] -= (1. / layer.w_mps_quantizer.theta_alpha.shape[1])
                             w_theta_alpha_array_tmp[j] += (1. / layer.w_mps_quantizer.theta_alpha.shape[1])
                             cost_tmp = _compute_cost(model, layer, w_theta_alpha_array_tmp, cost_fn_map, lname, node)
@@ -117,7 +118,8 @@ def optimize_prec_assignment(model: MPS,
                     if sorted_precisions[i] == 0:
                         continue
                     for j in range(i + 1, len(sorted_precisions)):
-                        while w_theta_alpha_array_tmp[i] > 0:
+                        # fractions are multiples of 1/n_channels accumulated in float: stop at less than half a channel
+                        while w_theta_alpha_array_tmp[i] > 0.5 / layer.w_mps_quantizer.theta_alpha.shape[1]:
                             w_theta_alpha_array_tmp[i] -= (1. / layer.w_mps_quantizer.theta_alpha.shape[1])
                             w_theta_alpha_array_tmp[j] += (1. / layer.w_mps_quantizer.theta_alpha.shape[1])
                             cost_tmp = _compute_cost(model, layer, w_theta_alpha_array_tmp, cost_fn_map, lname, node)
